@@ -334,17 +334,21 @@ theorem iters_le (ip : Bool) (mbs : List MbD) : iters mbs ≤ (mbs.flatMap (enco
     have := stuffBits_length ip m.stuffing
     omega
 
+/-- the source format a header resolves to in a given decoder state (its own, or the last picture's) -/
+def fmtOf (s : State) (hdr : PicHdr) : Out SrcFmt :=
+  match hdr.format with
+  | some f => .ok f
+  | none =>
+    if hdr.picType = .iFrame then .err .formatMissing
+    else match s.getLast with
+      | some p => .ok p.fmt
+      | none => .err .formatMissing
+
 /-- what `decode_next_picture` computes from a parsed header and a macroblock description list, with no bits involved:
 the bit-free counterpart of `decodeCore` after the header -/
 def semCore (s : State) (hdr : PicHdr) (mbs : List MbD) : Out (PicHdr × Gather.DecPic) := do
   let running := nextRunning hdr s.running
-  let fmt ← (match hdr.format with
-    | some f => .ok f
-    | none =>
-      if hdr.picType = .iFrame then .err .formatMissing
-      else match s.getLast with
-        | some p => .ok p.fmt
-        | none => .err .formatMissing : Out SrcFmt)
+  let fmt ← fmtOf s hdr
   let ref := s.getRef
   match fmt.dims with
   | none => .err .formatInvalid
@@ -365,16 +369,6 @@ def semCore (s : State) (hdr : PicHdr) (mbs : List MbD) : Out (PicHdr × Gather.
   let types := if l.types.size < total then l.types ++ Array.replicate (total - l.types.size) MbType.inter else l.types
   let pic ← reconstruct types ref mvs mbPerLine w pic l.lumaLv l.cbLv l.crLv
   pure (hdr, pic)
-
-/-- the source format a header resolves to in a given decoder state (its own, or the last picture's) -/
-def fmtOf (s : State) (hdr : PicHdr) : Out SrcFmt :=
-  match hdr.format with
-  | some f => .ok f
-  | none =>
-    if hdr.picType = .iFrame then .err .formatMissing
-    else match s.getLast with
-      | some p => .ok p.fmt
-      | none => .err .formatMissing
 
 /-- the picture dimensions a header resolves to in a given decoder state -/
 def dimsOf (s : State) (hdr : PicHdr) : Option (Nat × Nat) :=
